@@ -150,6 +150,7 @@ InvBAL        == BALInvariants(s)
 InvFunctional == Functional(blk)
 InvFeasible   == Feasible(s)
 InvFrames     == Len(fr) = Len(s.snaps) + 1
+InvNoEmpty    == NoEmptyBetweenTxs(s)
 
 Emit == IF Len(hist) = HistLen THEN PrintT(<<"MBT", ToJson(hist)>>) ELSE TRUE
 =============================================================================
